@@ -29,7 +29,7 @@ TIE = 1e-10
 
 def scenarios(tier):
     k = 1 if tier == "quick" else 10
-    return [("nndvi", 700 * k)]
+    return [("nndvi", 2000 * k)]
 
 
 def gen(rng, scenario, tier):
